@@ -188,7 +188,60 @@ pub fn decode(s: &mut Choices) -> Case {
     }
 }
 
+/// every public structure that has a raw in-memory form and a Default: raw == serialised
+fn default_objects(out: &mut Vec<Violation>) -> u64 {
+    use acpi_tables::{bert, facs, gas, hest, hmat, madt, pptt, rqsc, rsdp, srat, tpm2};
+    use zerocopy::IntoBytes;
+    let mut n = 0;
+    macro_rules! d {
+        ($name:expr, $t:ty) => {{
+            let x: $t = Default::default();
+            check_object(concat!($name, "::default()"), &x, Some(x.as_bytes()), out);
+            n += 1;
+        }};
+    }
+    d!("madt::ProcessorLocalApic", madt::ProcessorLocalApic);
+    d!("madt::IoApic", madt::IoApic);
+    d!("madt::Gicc", madt::Gicc);
+    d!("madt::Gicd", madt::Gicd);
+    d!("madt::GicMsi", madt::GicMsi);
+    d!("madt::Gicr", madt::Gicr);
+    d!("madt::GicIts", madt::GicIts);
+    d!("madt::RINTC", madt::RINTC);
+    d!("madt::IMSIC", madt::IMSIC);
+    d!("srat::RintcAffinity", srat::RintcAffinity);
+    d!("hmat::MemoryProximityDomain", hmat::MemoryProximityDomain);
+    d!("pptt::CacheNode", pptt::CacheNode);
+    d!("hest::PcieAerRootPort", hest::PcieAerRootPort);
+    d!("hest::PcieAerDevice", hest::PcieAerDevice);
+    d!("hest::PcieAerBridge", hest::PcieAerBridge);
+    d!("hest::GenericHardwareSource", hest::GenericHardwareSource);
+    d!("hest::GenericHardwareSourceV2", hest::GenericHardwareSourceV2);
+    d!("hest::NotificationStructure", hest::NotificationStructure);
+    d!("gas::GAS", gas::GAS);
+    d!("bert::BERT", bert::BERT);
+    d!("tpm2::TpmServer1_2", tpm2::TpmServer1_2);
+    d!("facs::FACS", facs::FACS);
+    d!("rsdp::Rsdp", rsdp::Rsdp);
+    d!("rqsc::CacheResource", rqsc::CacheResource);
+    d!("rqsc::MemoryAffinityStructureResource", rqsc::MemoryAffinityStructureResource);
+    d!("rqsc::ACPIDeviceResource", rqsc::ACPIDeviceResource);
+    d!("rqsc::PCIDeviceResource", rqsc::PCIDeviceResource);
+    // builder chains on a default object
+    let r = srat::RintcAffinity::default().proximity_domain(0x0102_0304).enabled();
+    check_object("srat::RintcAffinity::default().builders", &r, Some(r.as_bytes()), out);
+    n + 1
+}
+
 pub fn run(ctx: &Ctx) {
+    {
+        let mut vs = Vec::new();
+        let n = default_objects(&mut vs);
+        ctx.add_evals(n);
+        ctx.add_engine("directed:c14.default-objects", n);
+        vs.dedup_by_key(|v| v.sig());
+        ctx.report("c14.default", json!({"case": "default-objects"}), vs);
+    }
     ctx.set_rule("every object produced by the table generators of C01-C05/C11/C12 (whole tables, every entry/node/structure on its own, GAS, notification and resource sub-structures) and by the AML generator of C06 is serialised twice into the vector sink and once into: a sink implementing only byte(), a sink overriding all five methods (logging the call pattern), the checksum sink, the generic-table sink and the package-builder sink; the concatenated bytes must be identical everywhere, Checksum.raw_value() and u8sum() must equal the arithmetic byte sum, and for every structure that can be added through its raw in-memory form as_bytes() must equal the serialised bytes. Non-trivial = object whose serialisation uses >= 2 different sink entry points; distinct by hash.");
     let seed = ctx.seed;
     let progs = directed_programs(&ALL_KINDS, seed);
@@ -238,6 +291,11 @@ pub fn run(ctx: &Ctx) {
 }
 
 pub fn replay(case: &serde_json::Value) -> Vec<Violation> {
+    if case.as_str() == Some("default-objects") {
+        let mut vs = Vec::new();
+        default_objects(&mut vs);
+        return vs;
+    }
     let c: Case = serde_json::from_value(case.clone()).expect("C14 case");
     oracle(&c)
 }
